@@ -278,6 +278,8 @@ def t2(model: Model, rep: Report):
     for p in [q for q in ps if q.exit == "return"]:
         es = emits(p, p.value)
         all_t = ("attr", conn, "qubit_indices")
+        if not es or any(e.cls is None and (not e.loops or "localdef" in show(e.loops[-1])) for e in es):
+            raise AnalysisError("get_circuit_initialize: what is added is produced by a generator / helper and not read as a sequence of operations")
         ok = len(es) == 3 and _is_barrier_all(es[0], all_t) and _is_barrier_all(es[2], all_t) and not es[0].loops and not es[2].loops and es[1].loops and "get_operations" in show(es[1].loops[-1]) \
             and all(not atoms_of(e.cond) for e in es)
         rep.check(ok, "C10.T2", "get_circuit_initialize", f.loc, found=[e.cls for e in es], required="Barrier(all), every preparation operation, Barrier(all)", what="state preparation is not wrapped in two unconditional barriers", detail="initialize")
@@ -287,6 +289,8 @@ def t2(model: Model, rep: Report):
     for p in [q for q in ps if q.exit == "return"]:
         es = emits(p, p.value)
         kinds = [(e.cls, show(e.loops[-1])[-60:] if e.loops else "") for e in es]
+        if not es or any(e.cls is None and (not e.loops or "localdef" in show(e.loops[-1])) for e in es):
+            raise AnalysisError("get_circuit_initialize_with_heralded: what is added is produced by a generator / helper and not read as a sequence of operations")
         ok = len(es) == 3 and es[0].cls == "Reset" and es[0].loops and "prepare_qubit_indices" in show(es[0].loops[-1]) and es[1].cls == "DispersiveMeasure" and es[1].loops and "measure_qubit_indices" in show(es[1].loops[-1]) \
             and es[1].field("acquisition_tag") == ("const", "heralded") and es[2].cls == "circuit_components.get_circuit_initialize" and all(not atoms_of(e.cond) for e in es)
         rep.check(ok, "C10.T2", "get_circuit_initialize_with_heralded", f.loc, found=kinds, required="Reset(every prepared qubit); heralded measurement(every measured qubit); wrapped preparation",
@@ -321,6 +325,12 @@ def t2(model: Model, rep: Report):
             bad.append(f"STATE_{k}: does not start with Reset and heralded measurement of every qubit")
             continue
         if [x.cls for _, x in pulses] != want:
+            # an added operation whose class is not a name here (``cls(..)`` for a class taken from a table row, a helper that adds) is not read as "no pulse"
+            unread_ = [x.cls for _, x in emitted if x.cls is None or model.maybe_cls(str(x.cls).split(".")[-1]) is None]
+            helpers_ = [c_ for e_ in p.events if e_.kind == "effect" and e_.term is not None for c_ in subterms(e_.term, lambda y: y[0] == "call" and isinstance(y[1], tuple) and y[1][0] == "fn")
+                        if any(_same(a_, res) for a_ in list(c_[2]) + [v_ for _, v_ in c_[3]])]
+            if unread_ or helpers_:
+                raise AnalysisError(f"get_circuit_calibrate_with_heralded[STATE_{k}]: operations are added through a table row or a helper ({(unread_ + [show(h_)[:60] for h_ in helpers_])[:2]}); the pulse sequence is not read")
             bad.append(f"STATE_{k}: pulses {[x.cls for _, x in pulses]} instead of {want}")
             continue
         if len(fin) != 1:
@@ -341,6 +351,14 @@ def t2(model: Model, rep: Report):
     rep.check(not bad, "C10.T2", "get_circuit_calibrate_with_heralded", g.loc, found="; ".join(bad) or "reset, heralded, pulses after the readout, final after the pulses", required="each group starts FOLLOWED_BY the last operation of the preceding group",
               what="a calibration pulse or measurement can overlap the heralded readout on the same qubit: " + "; ".join(bad), detail="calibration")
     rep.floor("calibration states read", n_states, 3)
+
+
+def _same(a, b) -> bool:
+    from ..builder import _same_obj
+    try:
+        return _same_obj(a, b)
+    except Exception:
+        return a == b
 
 
 def _linear(events, recv, start: int = 0, out=None):
